@@ -228,14 +228,14 @@ class Rdataset(dns.set.Set):
         #
         if self.rdclass != rd.rdclass or self.rdtype != rd.rdtype:
             raise IncompatibleTypes
-        if ttl is not None:
-            self.update_ttl(ttl)
         if self.rdtype == dns.rdatatype.RRSIG or self.rdtype == dns.rdatatype.SIG:
             covers = rd.covers()
             if len(self) == 0 and self.covers == dns.rdatatype.NONE:
                 self.covers = covers
             elif self.covers != covers:
                 raise DifferingCovers
+        if ttl is not None:
+            self.update_ttl(ttl)
         if dns.rdatatype.is_singleton(rd.rdtype) and len(self) > 0:
             self.clear()
         super().add(rd)
